@@ -9,6 +9,7 @@
      (slurp base max ((limit total script data (err size contentok nbuf remained alloc held bytes)) ...))
      (filter n max ((id add promote) ...) (has ...) (top (ids...) ...))
      (net n max npeers ((peer #tt id total script (delivered closed len contentok)) ...))
+     (vnet n max npeers ((peer mode #wiretag wirelen voteid rawlen (delivered closed len contentok #dtag)) ...))
    script = ((k kind) ...), kind 0 data / 1 data, EOF with the last bytes / 2 error. *)
 From Coq Require Import NArith ZArith List Bool String.
 From Verif.lib Require Import Term.
@@ -304,8 +305,31 @@ Definition pres_obs (r : pres) (total : N) : N * bool * N :=
   | PGone => (0, true, 0)
   end.
 
-Definition net_case (n maxsz npeers : Z) (stepst : list term) : term :=
-  match map_opt parse_nstep stepst, make_filter (D:=list N) (Z.to_nat n) maxsz with
+(* A vote sent in the encoding its connection negotiated (mode 0: AV raw, 1: AV stateless-
+   compressed, 2: VP statefully compressed).  What readLoop hands on -- and what the filter must
+   be keyed by -- is the DELIVERED message: tag AV and the raw vote bytes, whatever the wire
+   encoding was.  The step is therefore judged (model and specification) as the frame
+   (AV, vote id, raw length): the same vote over differently encoded connections is the same
+   message.  The observation must show tag AV and the raw vote bytes ([contentok], #dtag). *)
+Definition parse_vstep (t : term) : option nstep :=
+  match t with
+  | TL [TZ p; TZ mode; TB wtag; TZ wlen; TZ id; TZ rawlen; TL [TZ del; cl; TZ len; cok; TB dtag]] =>
+      match as_bool cl, as_bool cok with
+      | Some cl, Some cok =>
+          if ((p <? 0) || (id <? 0) || (rawlen <? 0) || (del <? 0) || (len <? 0) || (wlen <? 0) ||
+              (mode <? 0) || (2 <? mode))%Z then None
+          else if negb (tag_eqb wtag (if (mode =? 2)%Z then tVP else tAV)) then None
+          else if tag_limit wtag <? Z.to_N wlen then None
+          else Some (mkNstep (Z.to_nat p) (mkFrame tAV (Z.to_N id) (Z.to_N rawlen) [])
+                             (Z.to_N del) cl (Z.to_N len)
+                             (cok && (if (del =? 0)%Z then true else tag_eqb dtag tAV)))
+      | _, _ => None
+      end
+  | _ => None
+  end.
+
+Definition net_case (parse : term -> option nstep) (n maxsz npeers : Z) (stepst : list term) : term :=
+  match map_opt parse stepst, make_filter (D:=list N) (Z.to_nat n) maxsz with
   | Some steps, Some f0 =>
       let sched := map (fun s => (ns_peer s, ns_frame s)) steps in
       let mres := net_run (repeat new_peer (Z.to_nat npeers)) f0 sched in
@@ -350,6 +374,8 @@ Definition check (t : term) : term :=
   | TL [TS "filter"; TZ n; TZ maxsz; TL ops; TL has; TL st] =>
       if (n <? 1)%Z then v_parse else filter_case n maxsz ops has st
   | TL [TS "net"; TZ n; TZ maxsz; TZ npeers; TL steps] =>
-      if ((n <? 1) || (npeers <? 0))%Z then v_parse else net_case n maxsz npeers steps
+      if ((n <? 1) || (npeers <? 0))%Z then v_parse else net_case parse_nstep n maxsz npeers steps
+  | TL [TS "vnet"; TZ n; TZ maxsz; TZ npeers; TL steps] =>
+      if ((n <? 1) || (npeers <? 0))%Z then v_parse else net_case parse_vstep n maxsz npeers steps
   | _ => v_parse
   end.
